@@ -1,6 +1,7 @@
 package props
 
 import (
+	"math/big"
 	"encoding/hex"
 	"fmt"
 	"sort"
@@ -47,6 +48,10 @@ func c03Alphabet() []c03Letter {
 		{"usd>peg", func(D factom.FAAddress, s uint64, _ factom.FAAddress) kit.Tx { return kit.Conversion(D, "pUSD", 5*s, "PEG") }},
 		{"xeur7", func(D factom.FAAddress, s uint64, _ factom.FAAddress) kit.Tx { return kit.Transfer(D, "pEUR", 7*s, B) }},
 		{"xpeg8", func(D factom.FAAddress, s uint64, _ factom.FAAddress) kit.Tx { return kit.Transfer(D, "PEG", 8*s, B) }},
+		{"wrap", func(D factom.FAAddress, s uint64, _ factom.FAAddress) kit.Tx {
+			// outputs sum to 2^64 + input: equal to the input only in wrapping 64-bit arithmetic
+			return kit.Tx{From: D, Asset: "pUSD", Amount: 10 * s, To: []kit.Out{{Addr: B, Amount: 1<<63 - 1}, {Addr: AddrC, Amount: 1<<63 - 1}, {Addr: B, Amount: 10*s + 2}}}
+		}},
 		{"xpeg5", func(D factom.FAAddress, s uint64, _ factom.FAAddress) kit.Tx { return kit.Transfer(D, "PEG", 5*s, B) }},
 	}
 }
@@ -197,6 +202,18 @@ func c03One(c *core.Ctx, r *core.Result, w *World, era drive.Era, base *LedgerVi
 	}
 	// "base" is the chain without the entry at the same tip; D's balances there equal D's balances when the entry executes (nobody else pays D)
 	overdraft := false
+	malformed := false // a transfer whose outputs do not sum to its input in exact arithmetic spends more than it debits
+	for _, t := range txs {
+		if t.Conv == "" {
+			sum := new(big.Int)
+			for _, o := range t.To {
+				sum.Add(sum, new(big.Int).SetUint64(o.Amount))
+			}
+			if sum.Cmp(new(big.Int).SetUint64(t.Amount)) != 0 {
+				malformed = true
+			}
+		}
+	}
 	affordableAlone := false
 	deferred := map[string]int64{}
 	unconvertible := false
@@ -279,6 +296,15 @@ func c03One(c *core.Ctx, r *core.Result, w *World, era drive.Era, base *LedgerVi
 		r.NonTrivial(key)
 	}
 	switch {
+	case malformed && !isRejected:
+		r.Outcome("malformed-had-effect")
+		if len(dRej) > 6 {
+			dRej = dRej[:6]
+		}
+		r.Violate(core.Violation{Key: key, Signature: "C03:batch-with-outputs-exceeding-its-input-had-an-effect:" + era.Name,
+			Desc: fmt.Sprintf("batch %v holds a transfer whose outputs do not sum to its input (in exact arithmetic), yet balances changed", txs), Detail: dRej})
+	case malformed:
+		r.Outcome("malformed-inert")
 	case isRejected && isApplied:
 		r.Outcome("no-net-effect")
 	case isRejected:
